@@ -1126,7 +1126,7 @@ def range_expect(sem, L: int):
 
 
 # ---------------------------------------------------------------- ETag lists
-TAGS = ["abc", "xyz", "", "a-b", "0", "W", "a b"]
+TAGS = ["abc", "xyz", "", "a-b", "0", "W", "a b", "*", "*"]      # "*" here is the QUOTED tag "*", an ordinary opaque tag
 
 
 def gen_taglist(rng, cur: str):
@@ -1229,7 +1229,7 @@ def gen_case(rng, L=None, kind=None, bs=None, focus=None, cur=None, lm_sec=None)
     c.chunks = chunkings(rng, c.data) if c.kind in ("list", "gen") else None
     c.method = rng.choice(["GET"] * 6 + ["HEAD"] * 2 + ["POST", "PUT", "get"])
     c.via = "make_conditional"
-    cur = rng.choice(["abc", "abc", "xyz", "", "a-b"]) if cur is None else cur
+    cur = rng.choice(["abc", "abc", "xyz", "", "a-b", "abc", "xyz", "*"]) if cur is None else cur
     lm_sec = micros(T0) // 10 ** 6 + rng.randint(-5, 5) if lm_sec is None else lm_sec
     # response validators
     c.etag, c.etag_sem = gen_etag_header(rng, cur)
@@ -1569,6 +1569,11 @@ def corpus_cases() -> list[Case]:
         mk(im='""', im_sem=(False, [(False, "")]), etag='""', etag_sem=(False, "")),
         # fixed: a signed last-byte-pos was accepted
         mk(range="bytes=0--0", range_sem=("malformed",)),
+        # the quoted tag "*" is an ordinary entity tag, not the wildcard
+        mk(inm='"*"', inm_sem=(False, [(False, "*")]), etag=E[0], etag_sem=E[1]),
+        mk(inm='"a", W/"*"', inm_sem=(False, [(False, "a"), (True, "*")]), etag=E[0], etag_sem=E[1]),
+        mk(im='"*"', im_sem=(False, [(False, "*")]), etag=E[0], etag_sem=E[1]),
+        mk(inm='"*"', inm_sem=(False, [(False, "*")]), etag='"*"', etag_sem=(False, "*")),
         # not pinned: over-long suffix
         mk(range="bytes=-5", range_sem=("suffix", 5), data=b"abc", chunks=[b"abc"]),
         # known: failed If-Range overridden by a matching If-None-Match / a failing If-Match / If-Modified-Since
@@ -1705,7 +1710,7 @@ def run(chk: Check) -> None:
     # ------------------------------------------------ (3) the functions directly, model vs implementation
     # parse_etags / unquote_etag
     n_t = 3000 if quick else 60000
-    tag_texts = ['""', 'W/""', '"a" b, "c"', 'W/"a", "b" ,c', '"a"  ', ", abc", "W/*", '"*"', "*", "w/", 'W/"x', '"a","b', "a b , c",
+    tag_texts = ['"*"', 'W/"*"', '"a", "*"', '"*", "a"', 'W/"*", *', '""', 'W/""', '"a" b, "c"', 'W/"a", "b" ,c', '"a"  ', ", abc", "W/*", '"*"', "*", "w/", 'W/"x', '"a","b', "a b , c",
                  "\x1f,a", "a\x0b", '  "a"', '"a" "b"', 'W/W/"a"', '"a",', ",", " ", '*, "a"', '"a", *', "", " , a", '"'] 
     atoms = ['"', "W/", "w/", ",", " ", "\t", "*", "a", "b", "abc", '"abc"', 'W/"abc"', ", ", "\x1f", " ", " ", "/", "W", "\\", "''"]
     for _ in range(n_t):
